@@ -197,6 +197,14 @@ func (b *Balloon) RefreshVersion() error {
 	return nil
 }
 
+// RebuildCache reloads the in-memory levels of the hyper tree from the store. It has
+// to be called when the store was written behind the balloon's back (state transfer).
+func (b *Balloon) RebuildCache() {
+	b.Lock()
+	defer b.Unlock()
+	b.hyperTree.RebuildCache()
+}
+
 // Add funcion inserts an event hash into the history and hyper trees, creates a snapshot
 // with these insertions results, and returns the snapshot along with certain mutations to
 // do to the persistent storage.
